@@ -44,6 +44,8 @@ def candidates(rng, n):
                                      variant("Off", dis=True, ser=["off"]), variant("Two", ser=["two", "TWO"], ts="Two", aci=vaci)],
                                  aci=eaci))
     base.append(enum(0, [variant("Known", ser=["known"], aci=1), variant("Other", "tuple", [field("String")], default=True)]))
+    base.append(enum(0, [variant("Red"), variant("Blue", ser=["b", "blue"]), variant("Other", "tuple", [field("String")], default=True)]))
+    base.append(enum(0, [variant("Other", "named", [field("String", "text")], default=True), variant("Red")], style="snake_case"))
     base.append(enum(0, [variant("Same", ser=["same"], ts="same")]))            # the same literal twice on one variant
     # overlapping spellings on which first-match-wins is still well defined for both parsers (PhfConsistent)
     base.append(enum(0, [variant("LegacyGet", ser=["get"]), variant("Get", aci=1), variant("Put", ser=["put", "PUT"])]))
